@@ -513,7 +513,18 @@ func (g *gctx) hostile(stage int) {
 	r := g.r
 	huge := []uint64{0xffffffff, 1 << 33, 1 << 40, 1 << 47, (1 << 48) - 1, 1 << 62, ^uint64(0)}
 	hugeLen := func() uint64 { return huge[r.Intn(len(huge))] }
-	switch r.Pick(8, 8, 8, 8, 10, 8, 8, 8, 6, 6, 6, 6, 6, 4, 4, 4) {
+	switch r.Pick(8, 8, 8, 8, 10, 8, 8, 8, 6, 6, 6, 6, 6, 4, 4, 4, 6) {
+	case 16: // payload present in full but larger than the message type allows
+		switch r.Intn(4) {
+		case 0:
+			g.emit(fmt.Sprintf("msg cmd=ping fill=%d:7", 9+r.Intn(40)))
+		case 1:
+			g.emit(fmt.Sprintf("msg cmd=verack fill=%d:0", 1+r.Intn(10)))
+		case 2:
+			g.emit(fmt.Sprintf("msg cmd=version pay=%s fill=%d:0", hex.EncodeToString(versionPayload("/x/")), 300+r.Intn(100)))
+		case 3:
+			g.emit(fmt.Sprintf("msg cmd=addr pay=00 fill=%d:0", 30009+r.Intn(50)))
+		}
 	case 0: // bad checksum on a checksummed command
 		cmd := []string{"ping", "version", "verack", "addr", "reject", "protoconf", "tx", "pong"}[r.Intn(8)]
 		g.emit(msgOp(cmd, le64(uint64(r.Intn(1000))), "ck=deadbeef"))
